@@ -106,7 +106,8 @@ type SimNode struct {
 	completedEvents map[string]bool // hashes whose InsertEvent had returned (store observed at step ends)
 	writtenEvents   map[string]bool // hashes whose event transaction committed (H8)
 	storePoints     int
-	armCrashAt      int // crash at this store point number (0 = not armed)
+	armCrashAt      int  // crash at this store point number (0 = not armed)
+	armBlockPre     bool // directed kill: at the next block record this node is about to write
 	armTorn         float64
 	task            *task
 	cur             *logCursor
